@@ -29,8 +29,11 @@ type Src struct {
 // an application print from another goroutine (joined before the read returns).
 type Async struct {
 	At   int    `json:"at"`
-	Kind string `json:"kind"` // printf | transient
+	Kind string `json:"kind"` // printf | transient | resize
 	Text string `json:"text"`
+	// With: the cursor position report this event's redisplay asks for reaches the main loop in the same read as
+	// the next chunk of the script: "before" (keys then report) or "after" (report then keys)
+	With string `json:"with,omitempty"`
 }
 
 type Spec struct {
@@ -54,6 +57,9 @@ type Spec struct {
 	Fault     string   `json:"fault"`            // "" | eof | eio : what Read returns after the script
 	Runs      int      `json:"runs"`
 	Patience  int      `json:"patience,omitempty"` // watchdog multiplier (scripts in which macros run macros)
+	// CPRWith: the N-th cursor position report of the session (N = key, from 1) reaches the library in the same
+	// read as the next chunk of the script: "before" (keys then report), "after" (report then keys).
+	CPRWith map[int]string `json:"cpr_with,omitempty"`
 }
 
 type Wait struct {
